@@ -16,22 +16,7 @@ Theorem registry_SWF : SWF (MkS registry_tbl registry_env).
 Proof. apply swfb_spec. exact registry_wf. Qed.
 """
 
-def shard_file(env, hists):
-    cases = clist(clist(items) for items in hists)
-    return HEADER + f"""
-Definition the_env : env := {G.coq_env(env)}.
-Definition cases : list (list (op * outcome)) := {cases}.
-Lemma run_agrees : mismatches (check_history the_env) cases = [].
-Proof. vm_compute. reflexivity. Qed.
-"""
-
-def diag_file(env, hists):
-    cases = clist(clist(items) for items in hists)
-    return HEADER + f"""
-Definition the_env : env := {G.coq_env(env)}.
-Definition cases : list (list (op * outcome)) := {cases}.
-Eval vm_compute in mismatches (check_history the_env) cases.
-"""
+from c01_lib import shard_file, diag_file
 
 def python_monitor(c, hist, results, exp, prefixes, envdims, hidx):
     """the property's own observable, evaluated on the implementation's answers"""
